@@ -14,6 +14,14 @@ TRUSTED = sk.TRUSTED + ["pickle (encrypted databases, results, SSE-2 and DP17 to
 ASSUMPTIONS = []
 
 
+def translate(ctx):
+    """regenerate Generated/WireLayout.lean (length checks and cut widths of every key / token parser, read off structures.py);
+    `Props/C03: *.wire_is_source` re-proves that the wire model uses exactly these layouts"""
+    import os, common
+    from translate import wire_layout
+    return wire_layout.generate(common.REPO, os.path.join(common.LEAN, "SSEPyVerif", "Generated", "WireLayout.lean"))
+
+
 def correspond(ctx):
     res = Result()
     n_cfg = ctx.pick(4, 12)
